@@ -9,7 +9,11 @@ model `Prom/Model/Desc.lean` (definitions over UTF-8 bytes).
 * per character: a generated predicate holds of `c` exactly when `c` is ASCII and the byte-level
   class holds of the byte `c`;
 * per string: `Gen.genIdentOk` on a list of characters is `isValidIdent` on the bytes of its UTF-8
-  encoding (Lean core's `String.utf8EncodeChar`).
+  encoding (Lean core's `String.utf8EncodeChar`);
+* the source may scan `input.chars()` or `input.bytes().map(char::from)` (`Gen.identScansBytes`):
+  `genIdentOkSrc` is what it computes on a string either way; for predicates that reject every
+  character ≥ U+0080 the two scans give the same answer (`ident_bytes_eq_chars`), so the per-string
+  agreement holds for whichever one the source uses (`ident_src_agrees`).
 -/
 namespace Prom.CharsetsGen
 open Prom
@@ -141,6 +145,119 @@ theorem ident_agrees (first rest : Char → Bool) (start : UInt8 → Bool)
           | true => exact absurd (hS b hp) (enc_nonascii c h b hb)
         simp only [List.cons_append, isValidIdent, hnb, Bool.false_and]
 
+/-! ### scanning the UTF-8 bytes, each as a `char`, instead of the characters -/
+
+/-- Rust's `char::from(b: u8)`: the scalar value U+0000..U+00FF with the value of the byte -/
+def byteChar (b : UInt8) : Char := Char.ofNat b.toNat
+
+theorem byteChar_toNat (b : UInt8) : (byteChar b).toNat = b.toNat := by
+  have hb := b.toNat_lt
+  have hv : Nat.isValidChar b.toNat := Or.inl (by omega)
+  unfold byteChar
+  rw [Char.ofNat, dif_pos hv]
+  rfl
+
+/-- the byte of an ASCII character, as a `char`, is that character -/
+theorem byteChar_ofNat_toNat (c : Char) (h : c.toNat < 128) : byteChar (UInt8.ofNat c.toNat) = c := by
+  unfold byteChar
+  rw [UInt8.toNat_ofNat', Nat.mod_eq_of_lt (by omega), Char.ofNat_toNat]
+
+/-- the list `input.bytes().map(char::from)` iterates over, for the string with the characters `cs` -/
+def bytesAsChars (cs : List Char) : List Char := (cs.flatMap String.utf8EncodeChar).map byteChar
+
+/-- a character-level predicate that rejects every character ≥ U+0080 -/
+def HiFalse (Q : Char → Bool) : Prop := ∀ c : Char, ¬ c.toNat < 128 → Q c = false
+
+/-- this is what agreement with a byte-level class gives (whatever the class) -/
+theorem Agrees.hiFalse {Q : Char → Bool} {P : UInt8 → Bool} (hQ : Agrees Q P) : HiFalse Q := by
+  intro c h
+  cases hq : Q c with
+  | false => rfl
+  | true => exact absurd ((hQ c).1 hq).1 h
+
+/-- every byte of a non-ASCII character, as a `char`, is rejected by such a predicate -/
+theorem hiFalse_enc_nonascii {Q : Char → Bool} (hQ : HiFalse Q) (c : Char) (h : ¬ c.toNat < 128) :
+    ∀ b ∈ String.utf8EncodeChar c, Q (byteChar b) = false := by
+  intro b hb
+  apply hQ
+  rw [byteChar_toNat]
+  have hnb := enc_nonascii c h b hb
+  have e : (0x80 : UInt8).toNat = 128 := by decide
+  rw [UInt8.lt_iff_toNat_lt] at hnb; omega
+
+/-- all bytes-as-chars of one encoded character pass `Q` exactly when the character does -/
+theorem all_enc_byteChar {Q : Char → Bool} (hQ : HiFalse Q) (c : Char) :
+    ((String.utf8EncodeChar c).map byteChar).all Q = Q c := by
+  by_cases h : c.toNat < 128
+  · rw [enc_ascii c h]
+    simp only [List.map_cons, List.map_nil, List.all_cons, List.all_nil, Bool.and_true,
+      byteChar_ofNat_toNat c h]
+  · rw [hQ c h]
+    cases he : String.utf8EncodeChar c with
+    | nil => exact absurd he String.utf8EncodeChar_ne_nil
+    | cons b t =>
+      have hb : b ∈ String.utf8EncodeChar c := by rw [he]; exact List.mem_cons_self
+      simp only [List.map_cons, List.all_cons, hiFalse_enc_nonascii hQ c h b hb, Bool.false_and]
+
+/-- … and the same over a whole string -/
+theorem all_bytesAsChars {Q : Char → Bool} (hQ : HiFalse Q) (cs : List Char) :
+    (bytesAsChars cs).all Q = cs.all Q := by
+  unfold bytesAsChars
+  induction cs with
+  | nil => rfl
+  | cons c r ih =>
+    rw [List.flatMap_cons, List.map_append, List.all_append, ih, all_enc_byteChar hQ c, List.all_cons]
+
+/-- **scanning bytes = scanning characters**: for first/rest predicates that reject every character
+    ≥ U+0080, the generated control shape run over the UTF-8 bytes of a string, each turned into a
+    `char`, answers what it answers run over the characters of the string. (A multi-byte character
+    contributes 2-4 elements instead of one, every one of them ≥ U+0080: rejected either way.) -/
+theorem ident_bytes_eq_chars (first rest : Char → Bool) (hF : HiFalse first) (hR : HiFalse rest)
+    (cs : List Char) :
+    Gen.genIdentOk first rest (bytesAsChars cs) = Gen.genIdentOk first rest cs := by
+  cases cs with
+  | nil => rfl
+  | cons c r =>
+    have hgen : ∀ x xs, Gen.genIdentOk first rest (x :: xs) = (first x && xs.all rest) := fun _ _ => rfl
+    have hsplit : bytesAsChars (c :: r) = (String.utf8EncodeChar c).map byteChar ++ bytesAsChars r := by
+      unfold bytesAsChars
+      rw [List.flatMap_cons, List.map_append]
+    rw [hsplit, hgen c r, ← all_bytesAsChars hR r]
+    by_cases h : c.toNat < 128
+    · rw [enc_ascii c h]
+      simp only [List.map_cons, List.map_nil, List.cons_append, List.nil_append,
+        byteChar_ofNat_toNat c h]
+      exact hgen _ _
+    · rw [hF c h, Bool.false_and]
+      cases he : String.utf8EncodeChar c with
+      | nil => exact absurd he String.utf8EncodeChar_ne_nil
+      | cons b t =>
+        have hb : b ∈ String.utf8EncodeChar c := by rw [he]; exact List.mem_cons_self
+        rw [List.map_cons, List.cons_append, hgen, hiFalse_enc_nonascii hF c h b hb, Bool.false_and]
+
+/-- **what the source computes on the string with the characters `cs`**: the generated control shape
+    over `input.bytes().map(char::from)` or over `input.chars()`, as the translator found it
+    (`Gen.identScansBytes`) -/
+def genIdentOkSrc (first rest : Char → Bool) (cs : List Char) : Bool :=
+  if Gen.identScansBytes then Gen.genIdentOk first rest (bytesAsChars cs) else Gen.genIdentOk first rest cs
+
+/-- whichever of the two the source scans, predicates that reject every character ≥ U+0080 make it
+    the scan of the characters -/
+theorem genIdentOkSrc_eq_chars (first rest : Char → Bool) (hF : HiFalse first) (hR : HiFalse rest)
+    (cs : List Char) : genIdentOkSrc first rest cs = Gen.genIdentOk first rest cs := by
+  unfold genIdentOkSrc
+  split
+  · exact ident_bytes_eq_chars first rest hF hR cs
+  · rfl
+
+/-- `ident_agrees` for what the source computes, for either scan -/
+theorem ident_src_agrees (first rest : Char → Bool) (start : UInt8 → Bool)
+    (hS : AsciiOnly start) (hR' : AsciiOnly (fun b => start b || isAsciiDigit b))
+    (hF : Agrees first start) (hR : Agrees rest (fun b => start b || isAsciiDigit b)) (cs : List Char) :
+    genIdentOkSrc first rest cs = isValidIdent start (cs.flatMap String.utf8EncodeChar) := by
+  rw [genIdentOkSrc_eq_chars first rest hF.hiFalse hR.hiFalse cs]
+  exact ident_agrees first rest start hS hR' hF hR cs
+
 /-! ### the four generated predicates -/
 
 theorem labelStart_asciiOnly : AsciiOnly labelStart :=
@@ -192,6 +309,21 @@ theorem label_ident_agrees (cs : List Char) :
     Gen.genIdentOk Gen.genLabelFirstOk Gen.genLabelRestOk cs
       = isValidLabelName (cs.flatMap String.utf8EncodeChar) :=
   ident_agrees _ _ labelStart labelStart_asciiOnly labelRest_asciiOnly label_first_agrees
+    label_rest_agrees cs
+
+/-- what the source computes for metric names (over the characters or over the bytes, as translated)
+    = hand-written validator on the UTF-8 bytes -/
+theorem metric_ident_src_agrees (cs : List Char) :
+    genIdentOkSrc Gen.genMetricFirstOk Gen.genMetricRestOk cs
+      = isValidMetricName (cs.flatMap String.utf8EncodeChar) :=
+  ident_src_agrees _ _ metricStart metricStart_asciiOnly metricRest_asciiOnly metric_first_agrees
+    metric_rest_agrees cs
+
+/-- … for label names -/
+theorem label_ident_src_agrees (cs : List Char) :
+    genIdentOkSrc Gen.genLabelFirstOk Gen.genLabelRestOk cs
+      = isValidLabelName (cs.flatMap String.utf8EncodeChar) :=
+  ident_src_agrees _ _ labelStart labelStart_asciiOnly labelRest_asciiOnly label_first_agrees
     label_rest_agrees cs
 
 end Prom.CharsetsGen
